@@ -25,14 +25,14 @@ const (
 
 // Reporter receives what the simulation observes.
 type Reporter interface {
-	Violation(group, class, detail string, transcript []string)
+	Violation(group, class, detail string, transcript []string, cfg Cfg)
 	Class(c string)
 	Metric(name string, n int64)
 }
 
 // Cfg configures one history.
 type Cfg struct {
-	Seed      int64
+	Seed      int64 `json:"Seed,string"`
 	Sessions  int // 1..4
 	Boxes     int // initial mailboxes (2..4)
 	Steps     int
@@ -107,11 +107,15 @@ type Sim struct {
 	stopped    bool
 	bctr       int
 	pool       []*Part // message pool
+	probe      *Sess
 }
+
+// Verbose keeps transcripts complete (replay / debugging).
+var Verbose bool
 
 func (sm *Sim) logf(format string, a ...interface{}) {
 	s := fmt.Sprintf(format, a...)
-	if len(s) > 600 {
+	if len(s) > 600 && !Verbose {
 		s = s[:600] + fmt.Sprintf("...(%d bytes)", len(s))
 	}
 	sm.transcript = append(sm.transcript, s)
@@ -123,10 +127,84 @@ func (sm *Sim) fail(group, class, detail string) {
 	}
 	sm.stopped = true
 	tr := sm.transcript
-	if len(tr) > 120 {
+	if len(tr) > 120 && !Verbose {
 		tr = append([]string{fmt.Sprintf("(%d earlier lines omitted)", len(tr)-120)}, tr[len(tr)-120:]...)
 	}
-	sm.rep.Violation(group, class, detail, tr)
+	sm.rep.Violation(group, class, detail, tr, sm.cfg)
+}
+
+// failView reports a view inconsistency (C08) unless the mailbox content itself
+// differs from the model, in which case the cause is a semantic difference (C09).
+func (sm *Sim) failView(s *Sess, class, detail string) {
+	if sm.stopped {
+		return
+	}
+	if s != nil && s.sel != nil {
+		if actual, ok := sm.actual(s.sel); ok && fmt.Sprint(actual) != fmt.Sprint(s.sel.uids()) {
+			sm.fail(GroupModel, "mailbox-content-differs", fmt.Sprintf("mailbox %q holds UIDs %v, model says %v (noticed through: %s)", s.sel.Name, actual, s.sel.uids(), detail))
+			return
+		}
+	}
+	sm.fail(GroupView, class, detail)
+}
+
+// actual lists the UIDs a mailbox really holds, through a fresh view on a
+// dedicated probe connection.
+func (sm *Sim) actual(b *Box) ([]uint32, bool) {
+	if sm.probe == nil {
+		sm.probe = &Sess{ID: 99, raw: sm.mem.DialRaw()}
+		sm.probe.raw.Sync()
+		if _, tg, ok := sm.exchange(sm.probe, "LOGIN user pass"); !ok || tg.Status != "OK" {
+			return nil, false
+		}
+	}
+	p := sm.probe
+	if _, tg, ok := sm.exchange(p, "EXAMINE "+quote(utf7ref.Encode(b.Name))); !ok || tg.Status != "OK" {
+		return nil, false
+	}
+	pre, tg, ok := sm.exchange(p, "UID SEARCH ALL")
+	if !ok || tg.Status != "OK" {
+		return nil, false
+	}
+	var uids []uint32
+	for _, l := range pre {
+		if l.Kind == "SEARCH" {
+			for _, t := range l.Toks[2:] {
+				v, _ := num(t)
+				uids = append(uids, uint32(v))
+			}
+		}
+		if l.Kind == "ESEARCH" {
+			for i, t := range l.Toks {
+				if t.IsAtom("ALL") && i+1 < len(l.Toks) {
+					set, _ := ParseSet(l.Toks[i+1].S)
+					uids = append(uids, SetNums(set)...)
+				}
+			}
+		}
+	}
+	sm.exchange(p, "UNSELECT")
+	sort.Slice(uids, func(i, j int) bool { return uids[i] < uids[j] })
+	return uids, !sm.stopped
+}
+
+func (b *Box) uids() []uint32 {
+	var l []uint32
+	for _, m := range b.Msgs {
+		l = append(l, m.UID)
+	}
+	return l
+}
+
+// checkContent compares the real content of a mailbox with the model right
+// after a command that removes messages.
+func (sm *Sim) checkContent(b *Box, after string) {
+	if sm.stopped || b == nil {
+		return
+	}
+	if actual, ok := sm.actual(b); ok && fmt.Sprint(actual) != fmt.Sprint(b.uids()) {
+		sm.fail(GroupModel, "wrong-messages-removed@"+after, fmt.Sprintf("after %s mailbox %q holds UIDs %v, model says %v", after, b.Name, actual, b.uids()))
+	}
 }
 
 // ---- wire helpers ------------------------------------------------------------------------
@@ -136,10 +214,7 @@ func quote(s string) string {
 }
 
 func (sm *Sim) mboxArg(name string) string {
-	enc := name
-	if !sm.cfg.Rev2 {
-		enc = utf7ref.Encode(name)
-	}
+	enc := utf7ref.Encode(name) // go-imap uses modified UTF-7 for mailbox names on every connection
 	plain := enc != ""
 	for i := 0; i < len(enc); i++ {
 		c := enc[i]
@@ -189,6 +264,9 @@ func (sm *Sim) collect(s *Sess, tag, name string) ([]kit.RespLine, kit.RespLine,
 		return nil, kit.RespLine{}, false
 	}
 	sm.rep.Metric("commands", 1)
+	if s.pending {
+		sm.rep.Metric("commands_under_stale_view", 1)
+	}
 	return lines[:len(lines)-1], lines[len(lines)-1], true
 }
 
@@ -227,45 +305,49 @@ func (sm *Sim) observe(s *Sess, lines []kit.RespLine, cmd string) *obs {
 		switch l.Kind {
 		case "EXISTS":
 			if s.sel == nil {
-				sm.fail(GroupView, "update-without-mailbox@EXISTS", fmt.Sprintf("%s: EXISTS %d sent although no mailbox is selected", cmd, l.Num))
+				sm.failView(s, "update-without-mailbox@EXISTS", fmt.Sprintf("%s: EXISTS %d sent although no mailbox is selected", cmd, l.Num))
 				return o
 			}
 			n := int(l.Num)
 			o.exists++
 			if n < len(s.view) {
-				sm.fail(GroupView, "count-shrinks-without-expunge@"+cmd, fmt.Sprintf("%s: EXISTS %d announced while the connection's view has %d messages", cmd, n, len(s.view)))
+				sm.failView(s, "count-shrinks-without-expunge@"+cmd, fmt.Sprintf("%s: EXISTS %d announced while the connection's view has %d messages", cmd, n, len(s.view)))
 				return o
 			}
 			k := n - len(s.view)
 			if s.hw+k > len(s.sel.All) {
-				sm.fail(GroupView, "count-exceeds-delivered@"+cmd, fmt.Sprintf("%s: EXISTS %d announces %d new messages but only %d were ever added beyond the view", cmd, n, k, len(s.sel.All)-s.hw))
+				sm.failView(s, "count-exceeds-delivered@"+cmd, fmt.Sprintf("%s: EXISTS %d announces %d new messages but only %d were ever added beyond the view", cmd, n, k, len(s.sel.All)-s.hw))
 				return o
 			}
 			s.view = append(s.view, s.sel.All[s.hw:s.hw+k]...)
 			s.hw += k
+			if k > 0 {
+				sm.rep.Metric("exists_announcements", 1)
+			}
 		case "EXPUNGE":
 			if s.sel == nil {
-				sm.fail(GroupView, "update-without-mailbox@EXPUNGE", fmt.Sprintf("%s: EXPUNGE %d sent although no mailbox is selected", cmd, l.Num))
+				sm.failView(s, "update-without-mailbox@EXPUNGE", fmt.Sprintf("%s: EXPUNGE %d sent although no mailbox is selected", cmd, l.Num))
 				return o
 			}
 			if noExpunge {
-				sm.fail(GroupView, "expunge-during@"+cmd, fmt.Sprintf("EXPUNGE %d sent while answering %s", l.Num, cmd))
+				sm.failView(s, "expunge-during@"+cmd, fmt.Sprintf("EXPUNGE %d sent while answering %s", l.Num, cmd))
 				return o
 			}
 			if l.Num < 1 || int(l.Num) > len(s.view) {
-				sm.fail(GroupView, "seq-out-of-range@EXPUNGE/"+cmd, fmt.Sprintf("%s: EXPUNGE %d but the announced count is %d", cmd, l.Num, len(s.view)))
+				sm.failView(s, "seq-out-of-range@EXPUNGE/"+cmd, fmt.Sprintf("%s: EXPUNGE %d but the announced count is %d", cmd, l.Num, len(s.view)))
 				return o
 			}
 			uid := s.view[l.Num-1]
 			if s.sel.find(uid) != nil {
-				sm.fail(GroupView, "expunge-of-existing-message@"+cmd, fmt.Sprintf("%s: EXPUNGE %d removes UID %d from the view but that message still exists", cmd, l.Num, uid))
+				sm.failView(s, "expunge-of-existing-message@"+cmd, fmt.Sprintf("%s: EXPUNGE %d removes UID %d from the view but that message still exists", cmd, l.Num, uid))
 				return o
 			}
 			s.view = append(s.view[:l.Num-1:l.Num-1], s.view[l.Num:]...)
 			o.expunge = append(o.expunge, uid)
+			sm.rep.Metric("expunge_responses", 1)
 		case "FETCH":
 			if s.sel == nil {
-				sm.fail(GroupView, "update-without-mailbox@FETCH", fmt.Sprintf("%s: FETCH %d sent although no mailbox is selected", cmd, l.Num))
+				sm.failView(s, "update-without-mailbox@FETCH", fmt.Sprintf("%s: FETCH %d sent although no mailbox is selected", cmd, l.Num))
 				return o
 			}
 			fl := ParseFetch(l)
@@ -274,12 +356,12 @@ func (sm *Sim) observe(s *Sess, lines []kit.RespLine, cmd string) *obs {
 				return o
 			}
 			if fl.Seq < 1 || int(fl.Seq) > len(s.view) {
-				sm.fail(GroupView, "seq-out-of-range@FETCH/"+cmd, fmt.Sprintf("%s: FETCH %d (UID %d) but the announced count is %d", cmd, fl.Seq, fl.UID, len(s.view)))
+				sm.failView(s, "seq-out-of-range@FETCH/"+cmd, fmt.Sprintf("%s: FETCH %d (UID %d) but the announced count is %d", cmd, fl.Seq, fl.UID, len(s.view)))
 				return o
 			}
 			uid := s.view[fl.Seq-1]
 			if fl.HasUID && fl.UID != uid {
-				sm.fail(GroupView, "seq-uid-mismatch@"+cmd, fmt.Sprintf("%s: FETCH %d carries UID %d but position %d of the announced view is UID %d", cmd, fl.Seq, fl.UID, fl.Seq, uid))
+				sm.failView(s, "seq-uid-mismatch@"+cmd, fmt.Sprintf("%s: FETCH %d carries UID %d but position %d of the announced view is UID %d", cmd, fl.Seq, fl.UID, fl.Seq, uid))
 				return o
 			}
 			o.fetch = append(o.fetch, fl)
@@ -718,10 +800,8 @@ func (sm *Sim) doStatus(s *Sess) {
 
 func (sm *Sim) decodeName(t wiretok.Tok) string {
 	n := t.S
-	if !sm.cfg.Rev2 {
-		if v, dec, _ := utf7ref.Decode([]byte(n)); v == utf7ref.MustAccept {
-			n = dec
-		}
+	if v, dec, _ := utf7ref.Decode([]byte(n)); v == utf7ref.MustAccept {
+		n = dec
 	}
 	return normName(n)
 }
@@ -796,9 +876,7 @@ func (sm *Sim) doList(s *Sess) {
 		cmd = strings.TrimSuffix(cmd, sm.mboxArg(ref)+" ") + `"" `
 	}
 	patArg := func(p string) string {
-		if !sm.cfg.Rev2 {
-			p = utf7ref.Encode(p)
-		}
+		p = utf7ref.Encode(p)
 		if strings.ContainsAny(p, ` "\`) || r.Intn(2) == 0 {
 			return quote(p)
 		}
@@ -965,10 +1043,16 @@ func (sm *Sim) doAppend(s *Sess) {
 	b := sm.boxes[name]
 	if nonSync {
 		sm.logf("C%d: %s %s {%d+} <%d bytes>", s.ID, tag, cmd, len(raw), len(raw))
+		if Verbose {
+			sm.logf("payload: %q", raw)
+		}
 		s.raw.SendStr(fmt.Sprintf("%s %s {%d+}\r\n", tag, cmd, len(raw)))
 		s.raw.Send(append(append([]byte{}, raw...), '\r', '\n'))
 	} else {
 		sm.logf("C%d: %s %s {%d} <%d bytes>", s.ID, tag, cmd, len(raw), len(raw))
+		if Verbose {
+			sm.logf("payload: %q", raw)
+		}
 		s.raw.SendStr(fmt.Sprintf("%s %s {%d}\r\n", tag, cmd, len(raw)))
 		out, cond := s.raw.Sync()
 		if cond != "parked" {
@@ -991,13 +1075,14 @@ func (sm *Sim) doAppend(s *Sess) {
 	if !ok {
 		return
 	}
-	sm.observe(s, pre, "APPEND")
 	sm.rep.Class(fmt.Sprintf("APPEND/%s/junk=%v", tg.Status, junk))
 	if (b != nil) != (tg.Status == "OK") {
+		sm.observe(s, pre, "APPEND")
 		sm.fail(GroupModel, "append-outcome", fmt.Sprintf("APPEND to %q answered %s; mailbox exists=%v", name, tail(tg.Raw, 120), b != nil))
 		return
 	}
 	if b == nil {
+		sm.observe(s, pre, "APPEND")
 		return
 	}
 	// APPENDUID
@@ -1024,6 +1109,7 @@ func (sm *Sim) doAppend(s *Sess) {
 	b.All = append(b.All, uid)
 	b.UIDNext = uid + 1
 	sm.markPending(b, nil)
+	sm.observe(s, pre, "APPEND")
 }
 
 // select -------------------------------------------------------------------------------------------
@@ -1061,7 +1147,7 @@ func (sm *Sim) doSelect(s *Sess) {
 		case l.Kind == "EXISTS":
 			exists = int(l.Num)
 		case l.Kind == "EXPUNGE" || l.Kind == "FETCH":
-			sm.fail(GroupView, "update-during-select", fmt.Sprintf("%s: %q", verb, l.Raw))
+			sm.failView(s, "update-during-select", fmt.Sprintf("%s: %q", verb, l.Raw))
 			return
 		case l.Status == "OK" && l.Code == "UIDVALIDITY" && len(l.Toks) > 3:
 			v, _ := num(wiretok.Tok{Kind: wiretok.Atom, S: strings.TrimSuffix(l.Toks[3].S, "]")})
@@ -1105,7 +1191,7 @@ func (sm *Sim) doClose(s *Sess) {
 	}
 	for _, l := range pre {
 		if l.Kind == "EXPUNGE" {
-			sm.fail(GroupView, "expunge-during@CLOSE", fmt.Sprintf("%s sent %q", verb, l.Raw))
+			sm.failView(s, "expunge-during@CLOSE", fmt.Sprintf("%s sent %q", verb, l.Raw))
 			return
 		}
 	}
@@ -1123,6 +1209,7 @@ func (sm *Sim) doClose(s *Sess) {
 		}
 	}
 	s.sel, s.view, s.hw, s.res, s.pending = nil, nil, 0, nil, false
+	sm.checkContent(b, verb)
 }
 
 // noop / idle --------------------------------------------------------------------------------------
@@ -1131,9 +1218,13 @@ func (sm *Sim) checkViewEqualsMailbox(s *Sess, where string) {
 	if s.sel == nil || sm.stopped {
 		return
 	}
-	var actual []uint32
-	for _, m := range s.sel.Msgs {
-		actual = append(actual, m.UID)
+	actual, ok := sm.actual(s.sel)
+	if !ok {
+		return
+	}
+	if fmt.Sprint(actual) != fmt.Sprint(s.sel.uids()) {
+		sm.fail(GroupModel, "mailbox-content-differs", fmt.Sprintf("mailbox %q holds UIDs %v, model says %v", s.sel.Name, actual, s.sel.uids()))
+		return
 	}
 	if fmt.Sprint(actual) != fmt.Sprint(s.view) {
 		class := "view-differs-after-" + where
@@ -1148,6 +1239,7 @@ func (sm *Sim) checkViewEqualsMailbox(s *Sess, where string) {
 		}
 		sm.fail(GroupView, class, fmt.Sprintf("after %s the view reconstructed from the responses is %v (UIDs) but the mailbox %q holds %v", where, s.view, s.sel.Name, actual))
 	}
+	sm.rep.Metric("view_equals_mailbox_checks", 1)
 	s.pending = false
 }
 
@@ -1448,10 +1540,11 @@ func (sm *Sim) doCopyMove(s *Sess) {
 		}
 		for _, t := range targets {
 			if !gone[t.m.UID] {
-				sm.fail(GroupView, "removed-message-never-reported@"+name, fmt.Sprintf("%s moved UID %d away but sent no EXPUNGE for it", cmd, t.m.UID))
+				sm.failView(s, "removed-message-never-reported@"+name, fmt.Sprintf("%s moved UID %d away but sent no EXPUNGE for it", cmd, t.m.UID))
 				return
 			}
 		}
+		sm.checkContent(s.sel, cmd)
 	}
 }
 
@@ -1490,22 +1583,8 @@ func (sm *Sim) doExpunge(s *Sess) {
 	if len(removed) > 0 {
 		sm.markPending(b, s)
 	}
-	o := sm.observe(s, pre, name)
-	if sm.stopped {
-		return
-	}
-	// messages of the session's own view that were removed by this command must be reported by it
-	gone := map[uint32]bool{}
-	for _, u := range o.expunge {
-		gone[u] = true
-	}
-	for _, u := range s.view {
-		if removed[u] {
-			sm.fail(GroupView, "removed-message-never-reported@"+name, fmt.Sprintf("%s removed UID %d but the session received no EXPUNGE for it", cmd, u))
-			return
-		}
-	}
-	_ = gone
+	sm.observe(s, pre, name)
+	sm.checkContent(b, cmd)
 }
 
 func min(a, b int) int {
